@@ -9,7 +9,7 @@ open Rosmar Rosmar.Sql
 
 theorem tie_dsp (cid : Nat) (k : String) (names : List String) (newCas now : Nat) (r : Row) :
     Writes (dspRow k names newCas now (some r)) (fun r' ev =>
-      Collection_DeleteSubDocPaths_UPDATE_0.exec
+      upd_cas_revSeqNo_xattrs__by_collection_key.exec
         (env [("$xattrs", encX r'.xattrs), ("$cas", .int newCas), ("$revSeqNo", .int (r.rev + 1)), ("c.id", .int cid), ("key", .text k)])
         (some (enc cid k r))
         = { row := some (enc cid k r'), affected := 1 }
@@ -18,7 +18,7 @@ theorem tie_dsp (cid : Nat) (k : String) (names : List String) (newCas now : Nat
   dsimp only
   cases hx : removeXattrs r.xattrs names
   · simp
-  · simp [Collection_DeleteSubDocPaths_UPDATE_0, Update.exec, applySets, SRow.set, SRow.get, E.eval, env, enc, encV, ofBool, SV.truthy, SV.same]
+  · simp [upd_cas_revSeqNo_xattrs__by_collection_key, Update.exec, applySets, SRow.set, SRow.get, E.eval, env, enc, encV, ofBool, SV.truthy, SV.same]
 
 /-! ### `storeDocument`: the upsert behind `writeWithXattrs` and `writeWithMeta` -/
 
@@ -31,15 +31,15 @@ def evEnv (cid : Nat) (ev : Event) : Env :=
        ("e.exp", .int ev.exp), ("e.xattrs", encX ev.xattrs), ("$tombstone", ofBool ev.isDeletion), ("e.revSeqNo", .int ev.rev)]
 
 theorem tie_storeDocument (cid : Nat) (ev : Event) (old : Option Row) :
-    Collection_storeDocument_INSERT_0.exec (evEnv cid ev) (old.map (enc cid ev.key))
+    ups_cas_collection_exp_isJSON_key_revSeqNo_tombstone_value_xattrs__set_cas_exp_isJSON_revSeqNo_tombstone_value_xattrs__if_collection_key.exec (evEnv cid ev) (old.map (enc cid ev.key))
       = { row := some (enc cid ev.key (rowOfEvent ev)), affected := 1 } := by
   cases old with
   | none =>
     cases hj : ev.isJSON <;> cases hd : ev.isDeletion <;>
-    simp [Collection_storeDocument_INSERT_0, Upsert.exec, insertRow, SRow.set, E.eval, env, evEnv, enc, rowOfEvent, defaultRow, ofBool, hj, hd]
+    simp [ups_cas_collection_exp_isJSON_key_revSeqNo_tombstone_value_xattrs__set_cas_exp_isJSON_revSeqNo_tombstone_value_xattrs__if_collection_key, Upsert.exec, insertRow, SRow.set, E.eval, env, evEnv, enc, rowOfEvent, defaultRow, ofBool, hj, hd]
   | some r =>
     cases hj : ev.isJSON <;> cases hd : ev.isDeletion <;>
-    simp [Collection_storeDocument_INSERT_0, Upsert.exec, applySets, SRow.set, SRow.get, E.eval, env, evEnv, enc, rowOfEvent, ofBool,
+    simp [ups_cas_collection_exp_isJSON_key_revSeqNo_tombstone_value_xattrs__set_cas_exp_isJSON_revSeqNo_tombstone_value_xattrs__if_collection_key, Upsert.exec, applySets, SRow.set, SRow.get, E.eval, env, evEnv, enc, rowOfEvent, ofBool,
       SV.truthy, SV.same, hj, hd]
 
 /-- The row function stores exactly the event it posts. -/
